@@ -463,7 +463,7 @@ pub fn check_c15(tier: &str) -> i32 {
     let thorough = rep.thorough();
     let depth = if thorough { 5 } else { 4 };
     let max_dev = 2;
-    rep.bounds = json!({"depth": depth, "max_deviations(stall, x9, silent)": max_dev, "max_sessions": [0, 1, 2, 3], "max_connections_per_history": 4});
+    rep.bounds = json!({"depth": depth, "max_deviations(stall, x9, silent)": max_dev, "max_sessions": [0, 1, 2, 3], "max_connections_per_history": 4, "connect_close_only_depth": if thorough { 8 } else { 6 }, "connect_close_only_max_connections": 7});
     // enumerate histories (model only), then run them on the net runtime
     let mut histories: Vec<History> = vec![];
     for tls in [false, true] {
@@ -507,6 +507,61 @@ pub fn check_c15(tier: &str) -> i32 {
                 if terminal || !has_ext {
                     histories.push(History { max_sessions, tls, events: p });
                 }
+            }
+        }
+    }
+    // the tracker alone, deeper: every history over {connect, peer closes i} (plain TCP), more
+    // connections, so that eviction after out-of-order closes is reached
+    let tracker_depth = if thorough { 8 } else { 6 };
+    for max_sessions in [1usize, 2, 3] {
+        let cap = max_sessions;
+        fn rec2(path: &mut Vec<SEv>, d: usize, cap: usize, out: &mut Vec<Vec<SEv>>) {
+            // reference tracker state
+            let mut order: VecDeque<usize> = VecDeque::new();
+            let mut n = 0usize;
+            for e in path.iter() {
+                match e {
+                    SEv::Connect => {
+                        if order.len() >= cap {
+                            order.pop_front();
+                        }
+                        order.push_back(n);
+                        n += 1;
+                    }
+                    SEv::Close(i) => order.retain(|x| x != i),
+                    _ => {}
+                }
+            }
+            if path.len() >= d {
+                out.push(path.clone());
+                return;
+            }
+            let mut any = false;
+            if n < 7 {
+                path.push(SEv::Connect);
+                rec2(path, d, cap, out);
+                path.pop();
+                any = true;
+            }
+            for i in order.iter().copied().collect::<Vec<_>>() {
+                // closing is only interesting while something can still be connected afterwards
+                if path.len() + 1 < d {
+                    path.push(SEv::Close(i));
+                    rec2(path, d, cap, out);
+                    path.pop();
+                    any = true;
+                }
+            }
+            if !any {
+                out.push(path.clone());
+            }
+        }
+        let mut out = vec![];
+        rec2(&mut vec![], tracker_depth, cap, &mut out);
+        for p in out {
+            // histories without any close are already covered by the general alphabet
+            if p.iter().any(|e| matches!(e, SEv::Close(_))) && matches!(p.last(), Some(SEv::Connect)) {
+                histories.push(History { max_sessions, tls: false, events: p });
             }
         }
     }
